@@ -1,5 +1,6 @@
 import HydroVerif.Proto
 import HydroVerif.Model.C06
+import HydroVerif.Lemmas.C06Table
 open HydroVerif HydroVerif.C06
 
 /-
@@ -8,7 +9,7 @@ table is the generated `HydroVerif.Generated.FlowDir.codes`:
   codes                                              -> [9 ints]
   down nrows ncols [fd] [cells]                      -> ok:[cells] | err:badCell
   up nrows ncols [fd] [cells]                        -> ok:[9 ints;9 ints;...] | err:badCell
-  area nrows ncols [fd] outlet [inlets] nval         -> ok:[cells in storage order] | err:<kind>, then ` cyc` / ` acyc`
+  area nrows ncols [fd] outlet [inlets]|none nval|none -> ok:[cells in storage order] | err:<kind>, then ` cyc` / ` acyc`
                                                         (cycleThroughOutlet: the property leaves error-or-bounded open)
   fillmask nrows ncols [area]                        -> none | i0 j0 nr nc [0/1,...;...]
   filled nrows ncols [area] [0/1,...;...]            -> [cells]   (2nd list = the mask returned by binary_fill_holes)
@@ -16,9 +17,15 @@ table is the generated `HydroVerif.Generated.FlowDir.codes`:
   fpath nrows ncols [fd] outlet [cells]              -> [end,length,nsteps,ndiag,capped;...]   (nval = number of cells)
   fpath_pinned ...                                   -> same with the step classification of the pinned kernel
   hist nrows ncols [fd] op;op;...                    -> reply|reply|...   one object, calls in order:
-       D:outlet:[inlets]:nval  (ok:[area] | err:kind)     F  (ok:[start,end,length;...] | err:noArea)
+       D:outlet:[inlets]:nval  (ok:[area] | err:kind)     F  (ok:[start,end,length,capped,nsteps;...] | err:noArea)
        S:cell:code  (-)   G:[fd]  (-)   U:[cells] / W:[cells]  (as up / down on the current grid)
        R:start:nval  (ok:[cell,dist,dx,dy;...] | err:badCell on the current grid)
+       A  (the accessor idxcells_area: ok:[area] | err:noArea)   I:cell  (isin: ok:1 | ok:0 | err:noArea)
+       — run through `callRun` (interleaved state machine of the model)
+  chain nrows ncols [fd] outlet start n              -> [chainCells n start] [0/1 chainSteps] lastcell goesOnCount length
+  reach nrows ncols [fd] outlet [inlets]             -> [reachArea]   (brute-force reachability set, grid order)
+  count n                                            -> countBy 1 n, countBy (1+1) n  (Float)
+  esri                                               -> [m,dx,dy,pos,code at pos,code at 8-pos;...]  (esriDx/esriDy/esriPos of the table theorem)
 -/
 
 def codes : List Int := HydroVerif.Generated.FlowDir.codes
@@ -53,64 +60,73 @@ def tableReply (g : FlowGrid) (outlet : Int) (rows : List (Int × Int × List Bo
   fmtRows (rows.map fun r =>
     let len : Float := pathLength r.2.2
     [toString r.1, toString r.2.1, hexOfFloat len,
-     if flowPathCapped codes g outlet rows.length r.1 then "1" else "0"])
+     if flowPathCapped codes g outlet rows.length r.1 then "1" else "0", toString r.2.2.length])
 
 def cycTag (b : Bool) : String := if b then " cyc" else " acyc"
 
-/-- one call of a history; queries (`U`, `W`, `R`) are evaluated on the grid the object holds now -/
-def histOne (s : CatchState) (tok : String) : CatchState × String :=
+/-- one token of a history as a call of the model's interleaved state machine -/
+def parseCall (g : FlowGrid) (tok : String) : Option HistCall :=
   match tok.splitOn ":" with
   | ["D", o, inl, nval] =>
     match o.toInt?, parseIntList? inl, nval.toInt? with
-    | some o, some inl, some nval =>
-      let tag := cycTag (cycleThroughOutlet codes s.grid o inl)
-      match histStep codes s (.delineate o inl nval) with
-      | (s', .area (.ok a)) => (s', "ok:" ++ fmtIntList a ++ tag)
-      | (s', .area (.error e)) => (s', "err:" ++ errName e ++ tag)
-      | (s', _) => (s', "bad-op")
-    | _, _, _ => (s, "bad-op")
-  | ["F"] =>
-    match histStep codes s .flowpaths with
-    | (s', .table (.ok rows)) => (s', "ok:" ++ tableReply s.grid (s.outlet.getD (-1)) rows)
-    | (s', .table (.error e)) => (s', "err:" ++ errName e)
-    | (s', _) => (s', "bad-op")
+    | some o, some inl, some nval => some (.op (.delineate o inl nval))
+    | _, _, _ => none
+  | ["F"] => some (.op .flowpaths)
   | ["S", c, v] =>
     match c.toInt?, v.toInt? with
-    | some c, some v => ((histStep codes s (.setCell c v)).1, "-")
-    | _, _ => (s, "bad-op")
+    | some c, some v => some (.op (.setCell c v))
+    | _, _ => none
   | ["G", fd] =>
     match parseIntList? fd with
-    | some fd => ((histStep codes s (.setGrid (mkGrid s.grid.nrows s.grid.ncols fd).fd)).1, "-")
-    | none => (s, "bad-op")
-  | ["U", cells] =>
-    match parseIntList? cells with
-    | some cs =>
-      match mapCells (upstream codes s.grid) cs with
-      | .ok l => (s, "ok:" ++ fmtRows (l.map fun r => (upstreamRow r).map toString))
-      | .error e => (s, "err:" ++ errName e)
-    | none => (s, "bad-op")
-  | ["W", cells] =>
-    match parseIntList? cells with
-    | some cs =>
-      match mapCells (downstream codes s.grid) cs with
-      | .ok l => (s, "ok:" ++ fmtIntList l)
-      | .error e => (s, "err:" ++ errName e)
-    | none => (s, "bad-op")
+    | some fd => some (.op (.setGrid (mkGrid g.nrows g.ncols fd).fd))
+    | none => none
+  | ["U", cells] => (parseIntList? cells).map fun cs => .query (.upstream cs)
+  | ["W", cells] => (parseIntList? cells).map fun cs => .query (.downstream cs)
   | ["R", start, nval] =>
     match start.toInt?, nval.toInt? with
-    | some start, some nval =>
-      match (delineateRiver codes s.grid start nval : Except Err (List (RiverRow Float))) with
-      | .ok rows => (s, "ok:" ++ fmtRows (rows.map fun r =>
-          [toString r.cell, hexOfFloat r.dist, toString r.dx, toString r.dy]) ++ cycTag (chainCyclic codes s.grid start))
-      | .error e => (s, "err:" ++ errName e)
-    | _, _ => (s, "bad-op")
-  | _ => (s, "bad-op")
+    | some start, some nval => some (.query (.river start nval))
+    | _, _ => none
+  | ["A"] => some (.query .area)
+  | ["I", c] => c.toInt?.map fun c => .query (.isin c)
+  | _ => none
 
-def histReply (s : CatchState) (toks : List String) : String :=
-  let r := toks.foldl (fun (acc : CatchState × List String) tok =>
-    let r := histOne acc.1 tok
-    (r.1, r.2 :: acc.2)) (s, [])
-  "|".intercalate r.2.reverse
+/-- the reply to one call; `s` is the state the call was made in (for the open-outcome flags only) -/
+def fmtObs (s : CatchState) (g' : FlowGrid) (call : HistCall) (obs : CallObs Float) : String :=
+  match call, obs with
+  | .op (.delineate o inl _), .op (.area r) =>
+    let tag := cycTag (cycleThroughOutlet codes g' o inl)
+    match r with
+    | .ok a => "ok:" ++ fmtIntList a ++ tag
+    | .error e => "err:" ++ errName e ++ tag
+  | _, .op (.table (.ok rows)) => "ok:" ++ tableReply g' (s.outlet.getD (-1)) rows
+  | _, .op (.table (.error e)) => "err:" ++ errName e
+  | _, .op .nothing => "-"
+  | _, .query (.rows (.ok l)) => "ok:" ++ fmtRows (l.map fun r => r.map toString)
+  | _, .query (.rows (.error e)) => "err:" ++ errName e
+  | _, .query (.cells (.ok l)) => "ok:" ++ fmtIntList l
+  | _, .query (.cells (.error e)) => "err:" ++ errName e
+  | .query (.river start _), .query (.river (.ok rows)) =>
+    "ok:" ++ fmtRows (rows.map fun r =>
+      [toString r.cell, hexOfFloat r.dist, toString r.dx, toString r.dy]) ++ cycTag (chainCyclic codes g' start)
+  | _, .query (.river (.error e)) => "err:" ++ errName e
+  | _, .query (.flag (.ok b)) => if b then "ok:1" else "ok:0"
+  | _, .query (.flag (.error e)) => "err:" ++ errName e
+  | _, _ => "bad-op"
+
+/-- a whole history through `callRun`; the state each call was made in is recomputed from the state-changing calls
+before it (`histRun`, `opsOf`, `gridAfter` — the functions the history theorems are stated with) -/
+def histReply (s0 : CatchState) (toks : List String) : String :=
+  match toks.mapM (parseCall s0.grid) with
+  | none => "bad-op"
+  | some calls =>
+    let obs := (callRun (α := Float) codes s0 calls).2
+    let replies := (List.range calls.length).map fun i =>
+      match calls[i]?, obs[i]? with
+      | some c, some o =>
+        let before := opsOf (calls.take i)
+        fmtObs (histRun codes s0 before).1 (gridAfter s0.grid before) c o
+      | _, _ => "bad-op"
+    "|".intercalate replies
 
 def handle (toks : List String) : String :=
   match toks with
@@ -130,10 +146,13 @@ def handle (toks : List String) : String :=
       | .error e => "err:" ++ errName e
     | _, _, _, _ => "bad-op"
   | ["area", nr, nc, fd, outlet, inlets, nval] =>
-    match nr.toInt?, nc.toInt?, parseIntList? fd, outlet.toInt?, parseIntList? inlets, nval.toInt? with
+    -- `none` for inlets / nval: the argument left at its default (delineateAreaPy)
+    let inl? : Option (Option (List Int)) := if inlets == "none" then some none else (parseIntList? inlets).map some
+    let nval? : Option (Option Int) := if nval == "none" then some none else nval.toInt?.map some
+    match nr.toInt?, nc.toInt?, parseIntList? fd, outlet.toInt?, inl?, nval? with
     | some nr, some nc, some fd, some o, some inl, some nval =>
-      let tag := cycTag (cycleThroughOutlet codes (mkGrid nr nc fd) o inl)
-      match wrapperArea codes (mkGrid nr nc fd) o inl nval with
+      let tag := cycTag (cycleThroughOutlet codes (mkGrid nr nc fd) o (inl.getD []))
+      match delineateAreaPy codes (mkGrid nr nc fd) o inl nval with
       | .ok l => "ok:" ++ fmtIntList l ++ tag
       | .error e => "err:" ++ errName e ++ tag
     | _, _, _, _, _, _ => "bad-op"
@@ -169,6 +188,30 @@ def handle (toks : List String) : String :=
           ++ cycTag (chainCyclic codes g start)
       | .error e => "err:" ++ errName e
     | _, _, _, _, _, _, _, _ => "bad-op"
+  | ["chain", nr, nc, fd, outlet, start, n] =>
+    -- the spec-side chain functions: cells of the chain (cut at the first sink / exit), classification of its steps,
+    -- the cell n steps down, how many of the first n flow-path iterations go on
+    match nr.toInt?, nc.toInt?, parseIntList? fd, outlet.toInt?, start.toInt?, n.toNat? with
+    | some nr, some nc, some fd, some o, some start, some n =>
+      let g := mkGrid nr nc fd
+      let cells := chainCells codes g n start
+      let steps := chainSteps codes g (isDiag g.ncols) (cells.length - 1) start
+      let len : Float := pathLength steps
+      s!"{fmtIntList cells} {fmtIntList (steps.map fun b => if b then 1 else 0)} {chainCell codes g (cells.length - 1) start} {goesOnCount codes g o start n} {hexOfFloat len}"
+    | _, _, _, _, _, _ => "bad-op"
+  | ["reach", nr, nc, fd, outlet, inlets] =>
+    match nr.toInt?, nc.toInt?, parseIntList? fd, outlet.toInt?, parseIntList? inlets with
+    | some nr, some nc, some fd, some o, some inl => fmtIntList (reachArea codes (mkGrid nr nc fd) o inl)
+    | _, _, _, _, _ => "bad-op"
+  | ["esri"] =>
+    -- the ESRI layout the table theorem is stated with: direction m, offsets, position, and the code found there
+    fmtRows ((List.range 8).map fun m =>
+      [toString m, toString (esriDx m), toString (esriDy m), toString (esriPos m),
+       toString (codes.getD (esriPos m) (-1)), toString (codes.getD (8 - esriPos m) (-1))])
+  | ["count", n] =>
+    match n.toNat? with
+    | some n => s!"{hexOfFloat (countBy (1 : Float) n)} {hexOfFloat (countBy (1 + 1 : Float) n)}"
+    | none => "bad-op"
   | ["hist", nr, nc, fd, ops] =>
     match nr.toInt?, nc.toInt?, parseIntList? fd with
     | some nr, some nc, some fd => histReply (CatchState.init (mkGrid nr nc fd)) (ops.splitOn ";")
